@@ -252,6 +252,20 @@ def _cc_kind(ch):
     return ''
 
 
+def _part_src(p):
+    """source text of a class part that is not in first position"""
+    pt = p[0]
+    if pt == 'c':
+        return _rc(p[1], False)
+    if pt == 'e':
+        return '\\' + p[1]
+    if pt == 'r':
+        return _rc(p[1], False)
+    if pt == 'hy':
+        return '-'
+    return render_set(p)
+
+
 def features(ast) -> list:
     toks = set()
 
@@ -270,7 +284,7 @@ def features(ast) -> list:
                     sub.add('r:esc-start')
                 elif hi_src[0] == '\\' and hi_src[1] in 'nrt':
                     sub.add('r:esc-end-nrt')
-                elif hi_src == '\\\\' and k + 1 < len(n[2]) and n[2][k + 1][0] in ('mce', 'cat', 'blk', 'e'):
+                elif hi_src == '\\\\' and k + 1 < len(n[2]) and _part_src(n[2][k + 1])[:1] == '\\':
                     sub.add('r:bs-end+esc')
                 else:
                     ks = [_cc_kind(dec(p[1])), _cc_kind(dec(p[2]))]
@@ -333,6 +347,36 @@ def nontrivial(ast, flags) -> bool:
             inner = set(f[4:].replace('(', ',').replace(')', ',').split(','))
             if inner & {'neg', 'sw', 'SW', 'd', 'D', 'ic', 'IC', 'cat', 'CAT', 'blk', 'BLK', 'blk-hy', 'BLK-hy'} or 'sub' in f:
                 return True
+    return False
+
+
+_HUGE_CATS = {'L', 'Lo', 'C', 'Cn', 'Co', 'S', 'So'}
+
+
+def _cls_slow(n) -> bool:
+    """[huge positive set - [class with a negative part]]: CharacterClass.__isub__ intersects code point by code
+    point (seconds per translation); still generated, but rarely, and never minimised with a large budget"""
+    if n[3] is None:
+        return False
+    sub = n[3]
+    if _cls_slow(sub):
+        return True
+    left_huge = not n[1] and any(
+        (p[0] == 'mce' and p[1] in 'wic') or (p[0] == 'cat' and not p[2] and p[1] in _HUGE_CATS)
+        or (p[0] == 'r' and ord(dec(p[2])) - ord(dec(p[1])) > 20000) for p in n[2])
+    right_negative = bool(sub[1]) or any((p[0] == 'mce' and p[1].isupper()) or (p[0] in ('cat', 'blk') and p[2])
+                                         for p in sub[2])
+    return left_huge and right_negative
+
+
+def slow_algebra(n) -> bool:
+    t = n[0]
+    if t == 'cls':
+        return _cls_slow(n)
+    if t in ('seq', 'alt'):
+        return any(slow_algebra(x) for x in n[1])
+    if t in ('grp', 'ncg', 'rep'):
+        return slow_algebra(n[1])
     return False
 
 
@@ -459,7 +503,13 @@ def _gen_cls(draw, depth=0):
         parts.insert(0, ['hy'])
     elif hy < 10 and sub is None:
         parts.append(['hy'])
-    return ['cls', neg, parts, sub]
+    res = ['cls', neg, parts, sub]
+    if sub is not None and _cls_slow(res) and draw(st.integers(0, 99)) >= 12:
+        # keep the expensive corner rare: make the subtrahend positive
+        res = ['cls', neg, parts, ['cls', False, [p for p in sub[2] if not ((p[0] == 'mce' and p[1].isupper()) or
+                                                                          (p[0] in ('cat', 'blk') and p[2]))] or [['c', 'a']],
+                                   None]]
+    return res
 
 
 _FORMS = [('?', 0, 1), ('*', 0, None), ('+', 1, None)]
@@ -622,6 +672,7 @@ def subjects_for(draw, ast, xpath, flags, count, xml_only=False, extra_chars=())
     chars = alpha + pool
     char_st = st.sampled_from(alpha * 3 + pool) if alpha else st.sampled_from(pool)
     icase = 'i' in flags
+    multi = 'm' in flags
     mem_cache: dict = {}
     if q:
         text = render(ast, xpath, False)
@@ -637,13 +688,19 @@ def subjects_for(draw, ast, xpath, flags, count, xml_only=False, extra_chars=())
             return {'n': '\n', 'r': '\r', 't': '\t'}.get(n[1], n[1])
         if t == 'dot':
             return draw(char_st)
-        if t in ('bol', 'eol', 'ws'):
+        if t in ('bol', 'eol'):
+            # multi-line mode: put line ends around the anchors
+            return '\n' if multi and draw(st.integers(0, 9)) < 5 else ''
+        if t == 'ws':
             return ''
         if t in ('mce', 'cat', 'blk', 'cls'):
             mem = mem_cache.get(id(n))
             if mem is None:
                 mem = mem_cache[id(n)] = _members(_set_ref(n), chars, icase)
-            return draw(st.sampled_from(mem)) if mem else draw(char_st)
+            ch = draw(st.sampled_from(mem)) if mem else draw(char_st)
+            if icase and draw(st.integers(0, 9)) < 3:
+                ch = ch.swapcase()[:1] or ch       # probes what flag i must NOT do to escapes
+            return ch
         if t == 'grp':
             s = sample(n[1], caps)
             caps.append(s)
@@ -671,8 +728,8 @@ def subjects_for(draw, ast, xpath, flags, count, xml_only=False, extra_chars=())
             s = text if q else sample(ast, [])
             if q and icase and draw(st.booleans()):
                 s = s.swapcase()
-            if len(s) > 10:
-                s = s[:10]
+            if len(s) > 14:
+                s = s[:14]
             m = draw(st.integers(0, 9))
             if m < 3 and s:
                 k = draw(st.integers(0, len(s) - 1))
@@ -687,6 +744,8 @@ def subjects_for(draw, ast, xpath, flags, count, xml_only=False, extra_chars=())
                 s = draw(char_st) + s
             elif m == 6:
                 s = s + draw(st.sampled_from(['\n', '\n', draw(char_st)]))
+            elif m == 7 and multi:
+                s = draw(st.sampled_from([s + '\n', '\n' + s, s[:-1], s + '\n\n']))
         else:
             s = ''.join(draw(st.lists(char_st, min_size=0, max_size=6)))
         out.append(s)
@@ -698,15 +757,27 @@ def pattern_case(draw, xpath: bool, nsubj: int = 8, xml_only: bool = False, flag
                  extra_chars=()):
     ver = draw(st.sampled_from(['1.0', '1.1']))
     flags = draw(st.sampled_from(flag_sets or FLAG_SETS)) if xpath else ''
-    if xpath and 'x' not in flags and draw(st.integers(0, 99)) < 3:
+    special = draw(st.integers(0, 99)) if xpath and 'x' not in flags else 99
+    if special < 5:
         # many groups: multi-digit back-references (\\10 vs \\1 followed by '0')
         ng = draw(st.integers(9, 12))
         letters = 'abcdefghijkl'
         items = [['grp', ['seq', [['lit', letters[k]]]]] for k in range(ng)]
-        items.append(['ref', draw(st.integers(1, ng))])
+        items.append(['ref', draw(st.sampled_from([ng, ng, ng - 1, 1, 2, min(ng, 10), draw(st.integers(1, ng))]))])
         if draw(st.booleans()):
             items.append(['lit', draw(st.sampled_from('0123'))])
         ast = ['seq', items]
+    elif special < 15 and 'm' in flags:
+        # line anchors next to things that match a newline
+        nl = draw(st.sampled_from([['esc', 'n'], ['lit', '\n'], ['cls', False, [['mce', 's']], None],
+                                   ['cls', True, [['c', 'a']], None], ['cat', 'Cc', False]]))
+        a = ['lit', draw(st.sampled_from('ab'))]
+        ast = draw(st.sampled_from([
+            ['seq', [nl, ['bol']]], ['seq', [['bol'], ['eol']]], ['seq', [a, nl, ['bol']]], ['seq', [a, ['eol'], nl, ['bol']]],
+            ['seq', [['eol'], nl, ['bol'], a]], ['seq', [nl, ['bol'], ['rep', a, 0, None, False, '*']]],
+            ['seq', [['bol'], ['rep', a, 0, None, False, '*'], ['eol']]], ['seq', [nl, ['eol']]],
+            ['alt', [['seq', [a, a, ['eol']]], ['seq', [nl, ['bol'], ['eol']]]]],
+        ]))
     else:
         state = _State(xpath, flags, draw(st.integers(1, max_atoms)))
         ast = _gen_regexp(draw, state, 0)
@@ -738,7 +809,8 @@ def invalid_case(draw):
         state = _State(xpath, '', draw(st.integers(0, max_atoms)))
         if state.budget == 0:
             return ''
-        return render(_gen_regexp(draw, state, 0), xpath)
+        ast = _gen_regexp(draw, state, 0)
+        return '' if slow_algebra(ast) else render(ast, xpath)
 
     P = valid_text()
     S = valid_text()
